@@ -157,11 +157,20 @@ def build(scene, state=None, assemble=True, options=None, names=None, extra=None
     plan_pose = [body_pose(b) for b in scene.get("bodies", [])]
     now_pose = [body_pose(b, state, i) for i, b in enumerate(scene.get("bodies", []))]
 
+    # legal user style: one array object (e.g. `at_rest = np.zeros(6)`) handed to several contributions as initial
+    # velocity; equal contents then share one object
+    _shared = {}
+
+    def shared(arr):
+        if not scene.get("share_initial_arrays"):
+            return arr
+        return _shared.setdefault((arr.shape, tuple(arr.tolist())), arr)
+
     for i, b in enumerate(scene.get("bodies", [])):
         r, A, p, v, w = now_pose[i]
         if b["kind"] == "rigid":
             q0 = np.concatenate([r, p])
-            u0 = np.concatenate([v, w])
+            u0 = shared(np.concatenate([v, w]))
             if b.get("mesh"):
                 # a rigid body that carries a visual mesh (box), placed off-centre / rotated in the body frame
                 from cardillo.discrete import Box
@@ -180,7 +189,7 @@ def build(scene, state=None, assemble=True, options=None, names=None, extra=None
             else:
                 body = RigidBody(b["m"], _theta(b), q0=q0, u0=u0, name=nm("body", i, f"b{i}"))
         else:
-            body = PointMass(b["m"], q0=r.copy(), u0=v.copy(), name=nm("body", i, f"b{i}"))
+            body = PointMass(b["m"], q0=r.copy(), u0=shared(v.copy()), name=nm("body", i, f"b{i}"))
         B.bodies.append(body)
         add(body)
 
@@ -328,7 +337,10 @@ def build(scene, state=None, assemble=True, options=None, names=None, extra=None
             q0 = np.array([lw.get("q0", 0.0)], dtype=float)
             if state is not None and k in state.get("maxwell", {}):
                 q0 = np.array([state["maxwell"][k]], dtype=float)
-            c = MaxwellElement(sub, stiffness=lw["k"], viscosity=lw["d"], l_ref=lw.get("l_ref"), q0=q0, name=name)
+            if scene.get("share_initial_arrays") and q0[0] == 0.0:
+                c = MaxwellElement(sub, stiffness=lw["k"], viscosity=lw["d"], l_ref=lw.get("l_ref"), name=name)  # the library's default q0
+            else:
+                c = MaxwellElement(sub, stiffness=lw["k"], viscosity=lw["d"], l_ref=lw.get("l_ref"), q0=q0, name=name)
         else:
             raise ValueError(lw["type"])
         B.laws.append(c)
